@@ -26,15 +26,16 @@ without an OS call, under the mmap contract `OsContract` for the answer received
     free and large enough (small bin / tree bin / dv / top) or from the mapping just served, and for
     over-aligned requests lies inside the chunk obtained for the padded request; so it overlaps no
     previously live block
-PROVED FROM `WF` OF A STATE (`WF` is evaluated by the driver on every state of every explored
-history — a hypothesis checked by the correspondence; its inductiveness `wf_step` is NOT proved):
+PROVED FROM `WF` OF A STATE:
   * `wf_live_aligned_sized`, `wf_live_disjoint`, `wf_live_inside_segment`, `never_mmapped`,
     `metadata_outside_live_blocks`, `no_adjacent_free_chunks`, `free_chunks_accounted`,
     `inuse_chunks_accounted`
   * `alloc_ok_partial`, `calloc_ok_partial`, `realloc_ok_partial`, `free_ok_partial`: post-conditions
     of one operation given `WF` of the state it produced.
-FULL STATEMENT NOT PROVED (kept for the record):
-    wf_step : WF hs → hs.step op os = .ok (hs', out) → OsContract hs os → WF hs'
+INDUCTIVENESS (round 3, `Props/C03Ind.lean`): `WF` alone is NOT inductive (kernel-checked counterexamples in
+  `Proofs/DlIndCex.lean`); the strengthened invariant `Inv2` (WF + RecsOk + FenceOk + TailOk + HeadOk + RecIn +
+  unique ids + power-of-two alignments) IS: `inv_step`, `wf_step`, `inv_reachable`, `wf_reachable`, and the FULL
+  `alloc_ok`, `calloc_ok`, `realloc_ok`, `free_ok` from the invariant of the state BEFORE the call.
   User bytes are not modelled: "a block's bytes change only through its owner" is the static
   `metadata_outside_live_blocks` here plus the byte-pattern oracle of the harness on the real code.
 -/
